@@ -1,19 +1,23 @@
 /-
-C02 — the SCgf version-2 byte writer (`SynthDef._write_def_list/_write_def`,
-`SynthObject._write_def`, `_fmtrw.py`) over the emitted definition of `Model.lean`.
-`struct.pack` range errors (name longer than 255, counts outside int16/int32, a
-constant that is not exactly a binary32 value) make the writer return `none`.
+C02 — SCgf version-2 bytes (`SynthDef._write_def_list/_write_def`,
+`SynthObject._write_def`, `_fmtrw.py`).
+
+Two layers:
+* `toWire` turns the emitted definition of `Model.lean` into a *wire file*: every number
+  already in its on-disk integer form (32-bit float words, counts, indices).  It fails
+  (`none`) exactly where `struct.pack` would raise: a name longer than 255 bytes or not
+  ASCII, a count or index outside its integer width, a constant that is not exactly a
+  binary32 value (rounding is `struct.pack`'s business and is not modelled).
+* `writeW` serialises a wire file (total), `parseW` is an independent total reader; the
+  round-trip theorem `parse_write` (Props) is about these two.
 Core Lean only.
 -/
 import Sc3Verif.C01.Model
 namespace Sc3Verif.C01
 
-def natPow2 (k : Nat) : Nat := 2 ^ k
-
 /-- bits of the binary32 float equal to `q`; `none` if `q` is not exactly representable
-    as a normal binary32 number (the harness only uses representable values; rounding
-    is `struct.pack`'s business and is not modelled). -/
-def f32Bits (q : Rat) : Option UInt32 :=
+    as a normal binary32 number. -/
+def f32Bits (q : Rat) : Option Nat :=
   if q == 0 then some 0
   else
     let sign : Nat := if q < 0 then 1 else 0
@@ -24,7 +28,6 @@ def f32Bits (q : Rat) : Option UInt32 :=
     else
       let e : Int := (Nat.log2 n : Int) - kd          -- 2^e ≤ |q| < 2^(e+1)
       let s : Int := 23 - e
-      -- mantissa m = |q| * 2^s must be an integer in [2^23, 2^24)
       let num := if s ≥ 0 then n * 2 ^ s.toNat else n
       let den := if s ≥ 0 then d else d * 2 ^ (-s).toNat
       if num % den != 0 then none
@@ -32,53 +35,213 @@ def f32Bits (q : Rat) : Option UInt32 :=
         let m := num / den
         let be := e + 127
         if be < 1 ∨ be > 254 ∨ m < 2 ^ 23 ∨ m ≥ 2 ^ 24 then none
-        else some (UInt32.ofNat (sign * 2 ^ 31 + be.toNat * 2 ^ 23 + (m - 2 ^ 23)))
+        else some (sign * 2 ^ 31 + be.toNat * 2 ^ 23 + (m - 2 ^ 23))
 
-def be32 (w : UInt32) : List UInt8 :=
-  [(w >>> 24).toUInt8, (w >>> 16).toUInt8, (w >>> 8).toUInt8, w.toUInt8]
+/-! ### wire file -/
 
-/-- `struct.pack('>i', v)` -/
-def wI32 (v : Int) : Option (List UInt8) :=
-  if v < -(2 ^ 31) ∨ v ≥ 2 ^ 31 then none
-  else some (be32 (UInt32.ofNat (v % 2 ^ 32).toNat))
+structure WUnit where
+  cls : List UInt8
+  rate : Int
+  special : Int
+  inputs : List (Int × Int)
+  outs : List Int
+deriving Repr, DecidableEq
+
+structure WDef where
+  name : List UInt8
+  consts : List Nat            -- 32-bit words
+  params : List Nat            -- 32-bit words
+  pnames : List (List UInt8 × Int)
+  units : List WUnit
+deriving Repr, DecidableEq
+
+def i32Ok (v : Int) : Prop := -2147483648 ≤ v ∧ v < 2147483648
+def i16Ok (v : Int) : Prop := -32768 ≤ v ∧ v < 32768
+def i8Ok (v : Int) : Prop := -128 ≤ v ∧ v < 128
+instance (v : Int) : Decidable (i32Ok v) := by unfold i32Ok; infer_instance
+instance (v : Int) : Decidable (i16Ok v) := by unfold i16Ok; infer_instance
+instance (v : Int) : Decidable (i8Ok v) := by unfold i8Ok; infer_instance
+
+def WUnit.Valid (u : WUnit) : Prop :=
+  u.cls.length ≤ 255 ∧ i8Ok u.rate ∧ i16Ok u.special ∧
+  u.inputs.length < 2147483648 ∧ u.outs.length < 2147483648 ∧
+  (∀ p ∈ u.inputs, i32Ok p.1 ∧ i32Ok p.2) ∧ (∀ r ∈ u.outs, i8Ok r)
+
+def WDef.Valid (d : WDef) : Prop :=
+  d.name.length ≤ 255 ∧ d.consts.length < 2147483648 ∧ d.params.length < 2147483648 ∧
+  d.pnames.length < 2147483648 ∧ d.units.length < 2147483648 ∧
+  (∀ c ∈ d.consts, c < 4294967296) ∧ (∀ c ∈ d.params, c < 4294967296) ∧
+  (∀ p ∈ d.pnames, p.1.length ≤ 255 ∧ i32Ok p.2) ∧ (∀ u ∈ d.units, u.Valid)
+
+instance (u : WUnit) : Decidable u.Valid := by unfold WUnit.Valid; infer_instance
+instance (d : WDef) : Decidable d.Valid := by unfold WDef.Valid; infer_instance
+
+/-! ### writer -/
+
+/-- big-endian bytes of a 32-bit word -/
+def wU32 (n : Nat) : List UInt8 :=
+  [UInt8.ofNat (n / 16777216 % 256), UInt8.ofNat (n / 65536 % 256), UInt8.ofNat (n / 256 % 256),
+   UInt8.ofNat (n % 256)]
+
+/-- `struct.pack('>i', v)` (two's complement) -/
+def wI32 (v : Int) : List UInt8 := wU32 (v % 4294967296).toNat
 
 /-- `struct.pack('>h', v)` -/
-def wI16 (v : Int) : Option (List UInt8) :=
-  if v < -(2 ^ 15) ∨ v ≥ 2 ^ 15 then none
-  else let w := (v % 2 ^ 16).toNat; some [UInt8.ofNat (w / 256), UInt8.ofNat (w % 256)]
+def wI16 (v : Int) : List UInt8 :=
+  let n := (v % 65536).toNat
+  [UInt8.ofNat (n / 256 % 256), UInt8.ofNat (n % 256)]
 
 /-- `struct.pack('b', v)` -/
-def wI8 (v : Int) : Option (List UInt8) :=
-  if v < -128 ∨ v ≥ 128 then none else some [UInt8.ofNat (v % 256).toNat]
+def wI8 (v : Int) : List UInt8 := [UInt8.ofNat (v % 256).toNat]
 
-def wF32 (q : Rat) : Option (List UInt8) := (f32Bits q).map be32
+/-- `write_pascal_str` -/
+def wPStr (s : List UInt8) : List UInt8 := UInt8.ofNat s.length :: s
 
-/-- `write_pascal_str`: one length byte, ASCII bytes -/
-def wPStr (s : String) : Option (List UInt8) :=
+def wUnit (u : WUnit) : List UInt8 :=
+  wPStr u.cls ++ wI8 u.rate ++ wI32 u.inputs.length ++ wI32 u.outs.length ++ wI16 u.special
+    ++ u.inputs.flatMap (fun p => wI32 p.1 ++ wI32 p.2) ++ u.outs.flatMap wI8
+
+def wDef (d : WDef) : List UInt8 :=
+  wPStr d.name ++ wI32 d.consts.length ++ d.consts.flatMap wU32
+    ++ wI32 d.params.length ++ d.params.flatMap wU32
+    ++ wI32 d.pnames.length ++ d.pnames.flatMap (fun p => wPStr p.1 ++ wI32 p.2)
+    ++ wI32 d.units.length ++ d.units.flatMap wUnit
+    ++ wI16 0
+
+/-- 'SCgf', version 2, one definition -/
+def writeW (d : WDef) : List UInt8 :=
+  [0x53, 0x43, 0x67, 0x66] ++ wI32 2 ++ wI16 1 ++ wDef d
+
+/-! ### reader (independent, total, structural) -/
+
+def rU8 : List UInt8 → Option (Nat × List UInt8)
+  | b :: r => some (b.toNat, r)
+  | [] => none
+
+def rU32 : List UInt8 → Option (Nat × List UInt8)
+  | a :: b :: c :: d :: r => some (a.toNat * 16777216 + b.toNat * 65536 + c.toNat * 256 + d.toNat, r)
+  | _ => none
+
+def rI32 (bs : List UInt8) : Option (Int × List UInt8) :=
+  (rU32 bs).map fun (n, r) => ((if n ≥ 2147483648 then (n : Int) - 4294967296 else n), r)
+
+def rI16 : List UInt8 → Option (Int × List UInt8)
+  | a :: b :: r =>
+    let n := a.toNat * 256 + b.toNat
+    some ((if n ≥ 32768 then (n : Int) - 65536 else n), r)
+  | _ => none
+
+def rI8 : List UInt8 → Option (Int × List UInt8)
+  | a :: r => some ((if a.toNat ≥ 128 then (a.toNat : Int) - 256 else a.toNat), r)
+  | [] => none
+
+def rBytes : Nat → List UInt8 → Option (List UInt8 × List UInt8)
+  | 0, r => some ([], r)
+  | n + 1, b :: r => (rBytes n r).map fun (l, r') => (b :: l, r')
+  | _ + 1, [] => none
+
+def rPStr (bs : List UInt8) : Option (List UInt8 × List UInt8) :=
+  match rU8 bs with
+  | some (n, r) => rBytes n r
+  | none => none
+
+/-- read `n` items with reader `p` -/
+def rMany {α : Type} (p : List UInt8 → Option (α × List UInt8)) :
+    Nat → List UInt8 → Option (List α × List UInt8)
+  | 0, r => some ([], r)
+  | n + 1, r =>
+    match p r with
+    | some (x, r') => (rMany p n r').map fun (l, r'') => (x :: l, r'')
+    | none => none
+
+/-- a count: a non-negative int32 -/
+def rCount (bs : List UInt8) : Option (Nat × List UInt8) :=
+  match rI32 bs with
+  | some (v, r) => if v < 0 then none else some (v.toNat, r)
+  | none => none
+
+def rPair (bs : List UInt8) : Option ((Int × Int) × List UInt8) :=
+  match rI32 bs with
+  | some (a, r) => (rI32 r).map fun (b, r') => ((a, b), r')
+  | none => none
+
+/-- sequencing of readers (explicit, so that proofs rewrite step by step) -/
+def andThen {α β : Type} (x : Option (α × List UInt8)) (f : α → List UInt8 → Option β) : Option β :=
+  match x with
+  | some (a, r) => f a r
+  | none => none
+
+def rUnit (bs : List UInt8) : Option (WUnit × List UInt8) :=
+  andThen (rPStr bs) fun cls r =>
+  andThen (rI8 r) fun rate r =>
+  andThen (rCount r) fun nin r =>
+  andThen (rCount r) fun nout r =>
+  andThen (rI16 r) fun sp r =>
+  andThen (rMany rPair nin r) fun ins r =>
+  andThen (rMany rI8 nout r) fun outs r =>
+  some ({ cls := cls, rate := rate, special := sp, inputs := ins, outs := outs }, r)
+
+def rPName (bs : List UInt8) : Option ((List UInt8 × Int) × List UInt8) :=
+  match rPStr bs with
+  | some (n, r) => (rI32 r).map fun (i, r') => ((n, i), r')
+  | none => none
+
+def rDef (bs : List UInt8) : Option (WDef × List UInt8) :=
+  andThen (rPStr bs) fun name r =>
+  andThen (rCount r) fun nc r =>
+  andThen (rMany rU32 nc r) fun consts r =>
+  andThen (rCount r) fun np r =>
+  andThen (rMany rU32 np r) fun params r =>
+  andThen (rCount r) fun nn r =>
+  andThen (rMany rPName nn r) fun pnames r =>
+  andThen (rCount r) fun nu r =>
+  andThen (rMany rUnit nu r) fun units r =>
+  andThen (rI16 r) fun nv r =>
+  if nv ≠ 0 then none     -- variants are outside this reader (C04)
+  else some ({ name := name, consts := consts, params := params, pnames := pnames, units := units }, r)
+
+/-- a whole file with exactly one definition and nothing after it -/
+def parseW (bs : List UInt8) : Option WDef :=
+  match bs with
+  | 0x53 :: 0x43 :: 0x67 :: 0x66 :: r =>
+    match rI32 r with
+    | some (2, r) =>
+      match rI16 r with
+      | some (1, r) =>
+        match rDef r with
+        | some (d, []) => some d
+        | _ => none
+      | _ => none
+    | _ => none
+  | _ => none
+
+/-! ### from the emitted definition to the wire -/
+
+def asciiBytes (s : String) : Option (List UInt8) :=
   let bs := s.toUTF8.toList
-  if bs.length > 255 ∨ bs.any (· ≥ 128) then none
-  else some (UInt8.ofNat bs.length :: bs)
+  if bs.length > 255 ∨ bs.any (· ≥ 128) then none else some bs
 
-def catOpt : List (Option (List UInt8)) → Option (List UInt8)
+def allSome {α : Type} : List (Option α) → Option (List α)
   | [] => some []
   | none :: _ => none
-  | some x :: rest => (catOpt rest).map (x ++ ·)
+  | some x :: rest => (allSome rest).map (x :: ·)
 
-def wUnit (u : Unit') : Option (List UInt8) :=
-  catOpt ([wPStr u.cls, wI8 (u.rate : Int), wI32 u.inputs.length, wI32 u.outs.length, wI16 u.special]
-    ++ u.inputs.flatMap (fun (a, b) => [wI32 a, wI32 (Int.ofNat b)])
-    ++ u.outs.map (fun (r : Nat) => wI8 (Int.ofNat r)))
+def toWireUnit (u : Unit') : Option WUnit := do
+  let cls ← asciiBytes u.cls
+  pure { cls := cls, rate := Int.ofNat u.rate, special := u.special,
+         inputs := u.inputs.map fun (a, b) => (a, Int.ofNat b), outs := u.outs.map Int.ofNat }
 
-/-- one definition (`SynthDef._write_def`), without variants -/
-def wDef (name : String) (pnames : List (String × Nat)) (d : Def) : Option (List UInt8) :=
-  catOpt ([wPStr name, wI32 d.consts.length] ++ d.consts.map wF32
-    ++ [wI32 d.controls.length] ++ d.controls.map wF32
-    ++ [wI32 pnames.length] ++ pnames.flatMap (fun (n, i) => [wPStr n, wI32 i])
-    ++ [wI32 d.units.length] ++ d.units.map wUnit
-    ++ [wI16 0])
+def toWire (name : String) (pnames : List (String × Nat)) (d : Def) : Option WDef := do
+  let nm ← asciiBytes name
+  let consts ← allSome (d.consts.map f32Bits)
+  let params ← allSome (d.controls.map f32Bits)
+  let pn ← allSome (pnames.map fun (n, i) => (asciiBytes n).map fun b => (b, Int.ofNat i))
+  let units ← allSome (d.units.map toWireUnit)
+  let w : WDef := { name := nm, consts := consts, params := params, pnames := pn, units := units }
+  if w.Valid then some w else none
 
-/-- `_write_def_list([self])`: header 'SCgf', version 2, one definition -/
+/-- the bytes `SynthDef.as_bytes()` produces for the emitted definition -/
 def writeFile (name : String) (pnames : List (String × Nat)) (d : Def) : Option (List UInt8) :=
-  catOpt [some [0x53, 0x43, 0x67, 0x66], wI32 2, wI16 1, wDef name pnames d]
+  (toWire name pnames d).map writeW
 
 end Sc3Verif.C01
